@@ -10,9 +10,6 @@ use progen::run::*;
 use progen::*;
 use vh::*;
 
-const BUDGET_SETS: [&[u32]; 4] = [&[1000], &[1], &[2, 3, 7], &[100]];
-const MAX_STEPS: u64 = 3_000_000;
-
 struct Job {
     tier: u8,
     prog: Program,
@@ -20,72 +17,12 @@ struct Job {
     req: String,
 }
 
-fn real_all_budgets(j: &Job) -> (Real, Vec<String>) {
-    let mut answers = vec![];
-    let mut first: Option<Real> = None;
-    for b in BUDGET_SETS {
-        let r = run_real(&j.src, &j.prog.final_ty, b, MAX_STEPS);
-        if !r.accepted || r.answer.starts_with("crash compile") {
-            return (r, vec![]);
-        }
-        // crash texts carry a traceback whose line can differ with the slicing: keep the message only
-        let mut r = r;
-        if let Some(i) = r.answer.find("[traceback]") {
-            r.answer.truncate(i);
-        }
-        answers.push(r.answer.clone());
-        if first.is_none() {
-            first = Some(r);
-        }
-    }
-    (first.unwrap(), answers)
-}
-
-/// is `p` still a failing program (accepted, and the implementation differs from the model)?
-fn still_fails(p: &Program) -> Option<(String, String)> {
-    let src = program_src(p);
-    let r = run_real(&src, &p.final_ty, &[1000], MAX_STEPS);
-    if !r.accepted {
-        return None;
-    }
-    let m = model_batch(&[sem_request(p, "shrink")]);
-    if m[0].starts_with("stuck") || m[0] == "bad-op" || m[0] == "timeout" || m[0] == "model-died" {
-        return None;
-    }
-    if r.answer != m[0] { Some((r.answer, m[0].clone())) } else { None }
-}
-
-fn shrink(p: &Program, mut limit: usize) -> Program {
-    let mut cur = p.clone();
-    'outer: loop {
-        for c in shrink_candidates(&cur) {
-            if limit == 0 {
-                break 'outer;
-            }
-            limit -= 1;
-            if still_fails(&c).is_some() {
-                cur = c;
-                continue 'outer;
-            }
-        }
-        break;
-    }
-    cur
-}
-
 /// `<main>` of the real unoptimised assembly in the canonical spelling of the `cgen` driver: labels
 /// resolved to instruction indices, `call 1 prelude.println…` as `print <type>`, slots renamed in order of
 /// first appearance.
 fn real_main_code(src: &str) -> Result<String, String> {
-    abra_core::verif_asm::start_optimize_trace();
-    let r = std::panic::catch_unwind(std::panic::AssertUnwindSafe(|| abra_core::compile_bytecode("main.abra", provider(src, &[]))));
-    let tr = abra_core::verif_asm::take_optimize_trace_display();
-    match r {
-        Ok(Ok(_)) => {}
-        Ok(Err(_)) => return Err("rejected".into()),
-        Err(_) => return Err("crash".into()),
-    }
-    let Some(lines) = tr.first() else { return Err("no-trace".into()) };
+    let lines = real_assembly(src)?;
+    let lines = &lines;
     // main = everything up to and including the first `stop`
     let mut main: Vec<&str> = vec![];
     for l in lines {
@@ -174,32 +111,8 @@ fn main() {
         ctx.known_findings.push("D21".into());
     }
 
-    // D16 (nested lambda capturing beyond its enclosing lambda): deep captures join the F3 stream
-    // once the compiler handles the witness
-    let d16_src = "let k = 10\nlet f = (a: int) -> {\n  let g = (b: int) -> a + b + k\n  g(1)\n}\nprintln(f(5))\n";
-    let d16_ok = {
-        let r = run_program(d16_src);
-        r.outcome == Outcome::Done && r.out == "16\n"
-    };
-    ctx.count(if d16_ok { "deep_capture:on" } else { "deep_capture:off(D16 not fixed)" });
-
-    // D36–D39 are being fixed in /repo: each shape joins the main stream as soon as the implementation
-    // treats its witness as the reference says (nothing is registered as a known finding)
-    let fixed = |src: &str, expect: &str| {
-        let r = run_program(src);
-        r.outcome == Outcome::Done && r.out == expect
-    };
-    let d36 = fixed("let r = match { let t = 1\n t } {\n 1 -> 10\n _ -> 20\n}\nprintln(r)\n", "10\n")
-        && fixed("let k = 1\nlet f = (a: int) -> match k {\n 1 -> a\n _ -> 0\n}\nprintln(f(5))\n", "5\n");
-    let d38 = fixed("var u = nil\nu = println(\"x\")\nprintln(\"y\")\n", "x\ny\n");
-    let d39 = fixed("let a = 5\nfor a in 3 { }\nprintln(a)\n", "5\n");
-    let n5 = fixed("let arr = [1]\nlet f = (a: int) -> {\n arr[0] = a\n 0\n}\nf(5)\nprintln(arr)\n", "[ 5 ]\n");
-    ctx.count(&format!("shape:captured-assignment-target:{}", if n5 { "on" } else { "off(not fixed)" }));
-    let n6 = fixed("fn g(n: int) -> int {\n  let u = if false { return 0 } else { }\n  1\n}\nprintln(g(0))\n", "1\n");
-    ctx.count(&format!("shape:never-typed-if-as-value:{}", if n6 { "on" } else { "off(not fixed)" }));
-    ctx.count(&format!("shape:let/capture-in-match-scrutinee:{}", if d36 { "on" } else { "off(D36/D37 not fixed)" }));
-    ctx.count(&format!("shape:void-assignment:{}", if d38 { "on" } else { "off(D38 not fixed)" }));
-    ctx.count(&format!("shape:for-binder-shadowing:{}", if d39 { "on" } else { "off(D39 not fixed)" }));
+    // shapes of defects being fixed: probed, switched on as soon as the implementation agrees
+    let base = probe_shapes(&mut ctx);
 
     // ---- generated programs
     let per_tier: [usize; 4] = if ctx.quick() { [110, 90, 90, 90] } else { [2500, 2500, 2500, 2500] };
@@ -213,14 +126,8 @@ fn main() {
                 stmts: 4 + (k % 9),
                 budget: if big { 40 + (k as i32 % 5) * 12 } else { 40 + (k as i32 % 9) * 20 },
                 depth_safe: true,
-                deep_capture: d16_ok,
                 big_ints: if k % 7 == 0 { 12 } else { 2 },
-                nesting: false,
-                avoid_scrutinee_bugs: !d36,
-                avoid_void_assign: !d38,
-                avoid_for_shadow: !d39,
-                avoid_captured_target: !n5,
-                avoid_never_value: !n6,
+                ..base.clone()
             };
             let (prog, hist) = generate(&mut r, o);
             for (f, n) in hist {
@@ -231,7 +138,7 @@ fn main() {
             jobs.push(Job { tier, prog, src, req });
         }
     }
-    let results = par_map(&jobs, real_all_budgets);
+    let results = par_map(&jobs, |j| real_all_budgets(&j.src, &j.prog.final_ty));
     let model = model_batch(&jobs.iter().map(|j| j.req.clone()).collect::<Vec<_>>());
     let mut rejected = 0usize;
     let mut shown = 0usize;
